@@ -629,4 +629,52 @@ structure NumPy where
   builtin : ∀ dt xs, (∀ e ∈ xs, inDT dt e = true ∧ (dt = .obj → isObj e = true)) → array dt (.list xs) = .ok xs
   same : ∀ dt xs, (∀ e ∈ xs, inDT dt e = true) → array dt (.nd dt xs) = .ok xs
 
+/-! ## reflection: package-level aliases and the module lookup of `get_class`
+
+`Namespace.j2` emits, per namespace package, `Name_M = Name_M_m` for the newest minor version `m` of every
+`(short name, major)` (`filter_newest_minor_version_aliases`: `max(..., key=lambda x: int(x.version.minor))`).
+`get_class` walks the namespace components with `do_import`: try `pkg.comp`, on `ImportError` try `pkg.comp_`
+(the generator suffixes reserved names — keywords *and* builtins — with an underscore). -/
+
+structure TyId where
+  name : String
+  major : Nat
+  minor : Nat
+  deriving DecidableEq, Repr
+
+/-- `max` by the *integer* minor version. -/
+def maxMinor : List Nat → Option Nat
+  | [] => none
+  | m :: ms =>
+    match maxMinor ms with
+    | none => some m
+    | some k => some (max m k)
+
+/-- The minor version `Name_M` refers to. -/
+def newestMinor (tys : List TyId) (name : String) (major : Nat) : Option Nat :=
+  maxMinor ((tys.filter (fun t => t.name = name ∧ t.major = major)).map (·.minor))
+
+/-- All aliases of a namespace: one per distinct `(name, major)`, in first-occurrence order. -/
+def aliasesFrom (all : List TyId) : List TyId → List TyId → List TyId
+  | _, [] => []
+  | seen, t :: ts =>
+    if seen.any (fun u => u.name = t.name ∧ u.major = t.major) then aliasesFrom all seen ts
+    else
+      match newestMinor all t.name t.major with
+      | some k => ⟨t.name, t.major, k⟩ :: aliasesFrom all (t :: seen) ts
+      | none => aliasesFrom all (t :: seen) ts
+
+def aliases (tys : List TyId) : List TyId := aliasesFrom tys [] tys
+
+/-- The name the generator gives a namespace component. -/
+def strop (reserved : String → Bool) (c : String) : String := if reserved c then c ++ "_" else c
+
+/-- `do_import`: `ex` tells which dotted module paths import; `pre` is the path of the package reached so far. -/
+def doImport (ex : List String → Bool) : List String → List String → Option (List String)
+  | pre, [] => some pre
+  | pre, c :: cs =>
+    if ex (pre ++ [c]) then doImport ex (pre ++ [c]) cs
+    else if ex (pre ++ [c ++ "_"]) then doImport ex (pre ++ [c ++ "_"]) cs
+    else none
+
 end NunavutVerif.PyObj
